@@ -37,6 +37,7 @@ Oracle (clauses)
   history-dependence
                    command or files for P after other tasks != for P on a
                    fresh launcher
+  rank-ids         the rank ids bound by an ERF file are not 0..n-1, each once
   well-formed      the command (or a file it names) cannot be read at all
   first-accepting  find_launcher returns something else than the first
                    launcher (in configured order) whose can_launch accepts
@@ -439,6 +440,8 @@ def features(pl):
     if len(ranks) > 42                    : f.add('>42-ranks')
     if len(counts) > 42                   : f.add('>42-nodes')
     if pl.get('rs')                       : f.add(pl['rs'])
+    if pl.get('rs') == 'rs-per-node' and len(set(cvals)) > 1:
+        f.add('unequal-resource-sets')
     first = min(counts, key=lambda name: NODE_POS[name])
     c     = pl['c']
     if min(r[1][0] for r in ranks if r[0] == first) // c \
@@ -457,7 +460,7 @@ FEATURE_ORDER = ['lower-core-block-on-later-node', 'multi-rank', 'multi-node', '
                  'nodes-not-in-list-order', 'ranks-interleaved', '>42-ranks',
                  '>42-nodes', 'shared-gpu', 'split-gpu',
                  'lowest-core-block>=cores_per_node/task-cores',
-                 '>2-cores-per-rank']
+                 '>2-cores-per-rank', 'rs-per-node', 'unequal-resource-sets']
 
 
 def minimal_trigger(failing, passing, clean=None):
@@ -530,11 +533,18 @@ def slots_old(pl):
     resource sets as ContinuousJsrun._find_resources creates them: one per
     rank, or one per group of ranks which share GPUs (pl['rs'])
     '''
-    out   = list()
-    ranks = pl['ranks']
-    per   = 2 if pl.get('rs') else 1
-    for i in range(0, len(ranks), per):
-        grp  = ranks[i:i + per]
+    out    = list()
+    ranks  = pl['ranks']
+    groups = list()
+    if pl.get('rs') == 'rs-per-node':
+        # one resource set per node, holding all ranks placed there
+        for r in ranks:
+            if groups and groups[-1][0][0] == r[0]: groups[-1].append(r)
+            else                                  : groups.append([r])
+    else:
+        per    = 2 if pl.get('rs') else 1
+        groups = [ranks[i:i + per] for i in range(0, len(ranks), per)]
+    for grp in groups:
         name = grp[0][0]
         assert all(r[0] == name for r in grp)
         if pl.get('rs') == 'split-gpu':
@@ -578,8 +588,10 @@ def make_task(v, pl, sbox, uid=UID, mpi=None, exe=EXE):
 
 def _make_task(v, pl, sbox, uid, mpi, exe):
     n  = len(pl['ranks'])
-    td = make_td(n, pl['c'], float(pl['g']) if not pl.get('rs')
-                                            else 1.0 / 2, mpi, exe)
+    if   not pl.get('rs')             : gpr = float(pl['g'])
+    elif pl['rs'] == 'rs-per-node'    : gpr = 0.5 if pl['g'] else 0.0
+    else                              : gpr = 0.5
+    td = make_td(n, pl['c'], gpr, mpi, exe)
     if v.get('slots') == 'old': slots = slots_old(pl)
     else                      : slots = [s.as_dict() for s in slots_new(pl)]
     task = {'uid'              : uid,
@@ -1156,7 +1168,7 @@ def read_jsrun(v, cmd, files, sbox, exec_path):
     lines = _hostfile_lines(text)
     if not lines or not lines[0].startswith('cpu_index_using:'):
         raise Unreadable('ERF header %r' % lines[:1])
-    seen   = dict()
+    binds  = list()
     for line in lines[1:]:
         m = re.match(r'^rank: *([\d,]+) *: *\{ *host: *(\d+) *; *cpu: *'
                      r'((?:\{[\d,]*\},?)+) *(?:; *gpu: *\{([\d,]*)\})? *\}$',
@@ -1176,14 +1188,19 @@ def read_jsrun(v, cmd, files, sbox, exec_path):
         else:
             name = NODE_NAME[host]
         for i, cs in zip(ids, csets):
-            if i in seen:
-                raise Unreadable('rank %d twice in ERF' % i)
-            seen[i] = (name, cs, gset)
-    if sorted(seen) != list(range(len(seen))):
-        raise Unreadable('ERF ranks %s' % sorted(seen))
-    r.procs = len(seen)
-    r.pins  = [(seen[i][0], seen[i][1]) for i in sorted(seen)]
-    r.gpins = [(seen[i][0], seen[i][2]) for i in sorted(seen)]
+            binds.append((i, name, cs, gset))
+    # every line binds the ranks it lists: the rank ids over all resource
+    # sets must be 0..n-1, each exactly once
+    ids = sorted(b[0] for b in binds)
+    if ids != list(range(len(binds))):
+        twice   = sorted(set(i for i in ids if ids.count(i) > 1))
+        missing = sorted(set(range(len(binds))) - set(ids))
+        r.notes.append(('rank-ids', 'ERF binds rank ids %s: %s bound more '
+                        'than once, %s not bound' % (ids, twice, missing)))
+    binds.sort(key=lambda b: b[0])
+    r.procs = len(binds)
+    r.pins  = [(b[1], b[2]) for b in binds]
+    r.gpins = [(b[1], b[3]) for b in binds]
     r.nodes = collections.Counter(n for n, _ in r.pins)
     return r
 
@@ -1497,6 +1514,24 @@ def extra_placements(v):
     pl['rs']   = 'split-gpu'
     pl['key'] += '/split-gpu'
     out.append(pl)
+    if v.get('name') != 'JSRUN_ERF':
+        return out
+    # one resource set per node with all ranks of the node (they share the
+    # node's GPU set): resource sets of different size.  Only the explicit
+    # resource file can say this; `jsrun -n -a` describes equal sets.
+    for pattern, nodes in (((2, 2), ['localhost', 'nodeb']),
+                           ((3, 1), ['localhost', 'nodeb']),
+                           ((1, 3), ['nodec', 'nodeb']),
+                           ((2, 1, 1), ['localhost', 'nodeb', 'nodec'])):
+        for c, g, style in ((1, 0, 'low'), (1, 1, 'low'), (2, 0, 'scattered'),
+                            (2, 2, 'scattered')):
+            pl = make_placement(pattern, nodes, c, g, style)
+            first = dict()
+            for r in pl['ranks']:
+                r[2] = list(first.setdefault(r[0], r[2]))
+            pl['rs']   = 'rs-per-node'
+            pl['key'] += '/rs-per-node'
+            out.append(pl)
     return out
 
 
@@ -1562,7 +1597,7 @@ def single_pass(world, v, part, verbose=False):
 
 CLAUSES = ['process-count', 'nodes-alien', 'nodes-omitted', 'per-node-count',
            'pinned-cores', 'pinned-gpus', 'cores-per-rank', 'gpus-per-rank',
-           'partition', 'well-formed']
+           'partition', 'well-formed', 'rank-ids']
 
 
 def history_indices(pls, quick):
